@@ -131,6 +131,25 @@ def checkLM (toks : List String) : String :=
   | some [_, _], some [bad] => verdict (bad == 0) "more-or-less-than-one-link-hook"
   | _, _ => "bad-op"
 
+/-- `uu`: rounds in which the last-attached hook is removed by several goroutines at once (explicit
+`Unhook`s, or `Trigger`s that find its limit used up) while new hooks are attached; afterwards a
+quiescent `Trigger` must invoke every hook that is attached and was not unhooked exactly once
+(`C15_trigger_exactly_once`, `C15_weak_iteration`): `bad` = rounds in which it did not. -/
+def checkUU (toks : List String) : String :=
+  let (a, b) := splitArrow toks
+  match natsOf a, natsOf b with
+  | some [_, _, _], some [bad, lost, extra] =>
+    verdict (bad == 0 && lost == 0 && extra == 0) "quiescent-trigger-missed-or-repeated-a-hook"
+  | _, _ => "bad-op"
+
+/-- `vd`: listeners are created, deregistered and waited for concurrently and `Notify` is never called:
+by `C15_notifier` / `C15_notifier_wait_race` no `Wait` may succeed. -/
+def checkVD (toks : List String) : String :=
+  let (a, b) := splitArrow toks
+  match natsOf a, natsOf b with
+  | some [_, _], some [_, ok, other] => verdict (ok == 0 && other == 0) "wait-succeeded-without-any-notify"
+  | _, _ => "bad-op"
+
 def parseHook (t : String) : Option (Nat × Nat × Option (Nat × Nat) × Nat) :=
   match t.splitOn "," with
   | [f1, s2, "-", "-", c] => do pure (← f1.toNat?, ← s2.toNat?, none, ← c.toNat?)
